@@ -17,6 +17,7 @@ from pathlib import Path
 
 VERIF = Path(__file__).resolve().parent.parent
 REPO = Path(os.environ.get("VERIF_IODATA_ROOT", "/repo"))
+OUT = Path(os.environ.get("VERIF_OUT", str(VERIF)))  # evidence/replays root (redirected for mutant self-tests)
 CORPUS = REPO / "iodata" / "test" / "data"
 LEVELS = ("exploration", "fault_enumeration", "model_checking")
 
@@ -218,7 +219,7 @@ def finish(ctx: Ctx) -> int:
         if sig in known_sigs:
             f = known_sigs[sig]
             print(f"KNOWN-FINDING: property={ctx.pid} {f['what']} [sig={sig}; {len(by_sig[sig])} case(s) this run]")
-    replay_dir = VERIF / "replays" / ctx.pid
+    replay_dir = OUT / "replays" / ctx.pid
     for sig in sorted(new):
         vs = new[sig]
         v = min(vs, key=lambda v: len(json.dumps(v.as_dict()["case"], sort_keys=True, default=repr)))
@@ -286,8 +287,8 @@ def write_evidence(ctx: Ctx, n_new: int, n_known: int):
     problems = validate_evidence(doc)
     if problems:
         print("HARNESS-ERROR: evidence would not validate: " + "; ".join(problems), file=sys.stderr)
-    out = VERIF / "evidence"
-    out.mkdir(exist_ok=True)
+    out = OUT / "evidence"
+    out.mkdir(parents=True, exist_ok=True)
     tmp = out / f".{ctx.pid}.json.tmp"
     tmp.write_text(json.dumps(doc, indent=1, sort_keys=True, default=repr) + "\n")
     tmp.replace(out / f"{ctx.pid}.json")
